@@ -61,9 +61,19 @@ def uc1(facts, rep):
         offs = addr_offset_locals(b)
         if not offs:
             continue
+        # conditions of compiler-inserted checks (`x >> bit` asserts bit < 32): not comparisons of the source program
+        assert_conds = set()
+        for bb in b.reachable(0):
+            t = b.term(bb)
+            if t['k'] == 'assert':
+                cp = t['cond'].get('c') or t['cond'].get('m')
+                if cp is not None:
+                    assert_conds.add(cp['l'])
         for bb in b.reachable(0):
             for i, s in enumerate(b.stmts(bb)):
                 if s['k'] != 'assign':
+                    continue
+                if 'pj' not in s['p'] and s['p']['l'] in assert_conds:
                     continue
                 r = s['r']
                 if r['k'] == 'agg' and r.get('adt', '').startswith('std::ops::Range') and len(r['ops']) == 2:
